@@ -844,7 +844,7 @@ def gen_history(rng, case, profile="mixed", nops=None):
 
     boundary = profile in ("mixed", "extreme")
     pool = [gen_meas(rng, case, boundary=boundary) for _ in range(rng.choice([1, 2, 3, 5]))] \
-        if profile in ("percell", "ties", "collide", "cma", "gap") else \
+        if profile in ("percell", "ties", "collide", "cma", "gap", "tminedge") else \
         [gen_meas(rng, case, boundary=boundary) for _ in range(rng.choice([3, 6, 12]))]
 
     def objective():
@@ -857,6 +857,15 @@ def gen_history(rng, case, profile="mixed", nops=None):
             return q(rng.choice([1, -1]) * F(2)**rng.choice([-100, -20, 0, 20, 100]) * rng.choice([1, 3, 5]))
         if profile == "cma":
             return dyadic(rng, -4, 12, 8)
+        if profile == "tminedge":
+            # objectives at, and one rounding step around, a threshold_min that is not exactly representable: the
+            # archive keeps threshold_min in its own dtype and compares objectives that were cast to the same dtype
+            r = rng.random()
+            if r < 0.4:
+                return case["tmin"]
+            if r < 0.6:
+                return q(fr(case["tmin"]) + F(rng.choice([-1, 1]), 2**rng.choice([10, 26, 30, 55])))
+            return dyadic(rng, -2, 4, 8)
         if profile == "gap":
             # near-equal, distinct, exactly representable objectives (the threshold is far below them)
             base = rng.choice([1, 1, 2, 100])
@@ -899,6 +908,9 @@ def gen_case(rng, profile="mixed", kinds=("grid", "cvt", "sb"), cma=False, dtype
     if cma and case["kind"] != "sb":
         case["lr"] = q(rng.choice([F(0), F(1, 4), F(1, 2), F(3, 4), F(1), F(1, 10), F(3, 10), F(9, 10), F(1, 100)]))
         case["tmin"] = q(rng.choice([F(0), F(-4), F(2), F(-1, 2)]))
+        if profile == "tminedge":
+            case["tmin"] = q(rng.choice([F(1, 10), F(3, 10), F(-7, 10), F(1, 3), F(-1, 3)]))
+            case["lr"] = q(rng.choice([F(0), F(1, 2), F(1), F(1, 10)]))
         if profile == "gap":
             # a threshold_min so far below the objectives that objective - threshold rounds in the archive dtype
             case["tmin"] = q(F(-1024) if case["dtype"] == "f32" else rng.choice([F(-2**60), F(-2**54)]))
@@ -924,6 +936,28 @@ def nontrivial_c01(case):
     return False
 
 
+def guarded(run, props):
+    """run.run(), with an exception escaping from the library on a valid history reported as a failing input."""
+    from core import library_failure
+    try:
+        return run.run()
+    except Exception as e:      # noqa: BLE001
+        if "C11" in props and not getattr(run, "after_bad", None):
+            f = None            # C11 only speaks about what follows a rejected call
+        else:
+            f = library_failure(e, props, "a valid call of the history")
+            if f is not None and "C11" in props:
+                f.what = (f"[C11] after a rejected call ({run.after_bad}) the remaining valid history no longer behaves "
+                          f"as if that call had never happened: {f.what}")
+        try:
+            run.drv.close()
+        except Exception:       # noqa: BLE001
+            pass
+        if f is None:
+            raise
+        return f
+
+
 def run_case(case, props, exact_thr=False):
     run = Run(case, props, exact_thr=exact_thr)
-    return run.run()
+    return guarded(run, props)
